@@ -659,6 +659,7 @@ type Client struct {
 	Fail            func(ctx context.Context, tok string) (string, error)
 	Void            func(ctx context.Context, tok string)
 	Note            func(ctx context.Context, tok string) error `notify:"true"`
+	NoteR           func(ctx context.Context, tok string) error `notify:"true" retry:"true" rpc_method:"S.Note"`
 	Boom            func(ctx context.Context, tok string, kind int) (string, error)
 	BoomR           func(ctx context.Context, tok string, kind int) (string, error) `retry:"true" rpc_method:"S.Boom"`
 	BoomNote        func(ctx context.Context, tok string, kind int) error           `notify:"true"`
